@@ -30,17 +30,74 @@ def gen(tier, seed):
                     for v in c['verts']:
                         v['t'] = [a + b for a, b in zip(v['t'], sh)]
                 cases.append(c)
+    # aliasing: a prior whose measurement IS the vertex's own pose object; a relative-pose edge between two vertices sharing ONE pose object
+    for kind in ('R2', 'SE2', 'SE3', 'R3'):
+        for _ in range(6 if thorough else 2):
+            c = GC.gen_graph(rnd, kind, 3, 1, 0, custom=False, fixed_mode='first', fix_first=True, parallel_p=0.0)
+            a = rnd.randrange(3)
+            W = rnd.choice(GC.W_SPD)(B.CDIM[kind])
+            c['edges'].append(dict(cls='prior', vs=[a + 1], tz=list(c['verts'][a]['t']), rz=list(c['verts'][a]['r']), toff=[], roff=[], W=W))
+            c['alias_prior'] = len(c['edges']) - 1
+            b = (a + 1) % 3
+            c['verts'][b]['t'] = list(c['verts'][a]['t'])
+            c['verts'][b]['r'] = list(c['verts'][a]['r'])
+            TT = EC.T2 if B.DIM[kind] == 2 else EC.T3
+            c['edges'].append(dict(cls='relpose', vs=[a + 1, b + 1], tz=list(rnd.choice(TT)), rz=list(GC.rots_for(kind, rnd, False)), toff=[], roff=[], W=W))
+            c['alias_pair'] = [a, b]
+            cases.append(c)
+    # range edges between far, axis-aligned points: a partial derivative is exactly 0.0 there (and is not after the points have moved)
+    for kind in ('R2', 'SE2', 'R3'):
+        for sep in (200, 1000):
+            c = GC.gen_graph(rnd, kind, 2, 0, 0, custom=False, fixed_mode='first', fix_first=True, parallel_p=0.0)
+            d = B.DIM[kind]
+            c['verts'][1]['t'] = [c['verts'][0]['t'][0] + sep] + list(c['verts'][0]['t'][1:])
+            c['edges'].append(dict(cls='range', vs=[1, 2], tz=[sep - 3], rz=[], toff=[], roff=[], W=[[2]]))
+            cases.append(c)
     return cases
+
+
+def rotated_state(c):
+    """A second lattice state of the same graph: every position rotated by 90 degrees about the (last) axis.  Separations are preserved,
+    axis-aligned pairs change axis."""
+    c2 = dict(c, verts=[dict(v) for v in c['verts']])
+    for v in c2['verts']:
+        t = v['t']
+        v['t'] = [-t[1], t[0]] + list(t[2:])
+    return c2
 
 
 def check(run):
     cases = gen(run.tier, run.seed)
-    pairs = c03.evaluate(run, cases, 'MC_C16', conventions=('canon',))
+    meta = [{k: c.pop(k) for k in ('alias_prior', 'alias_pair') if k in c} for c in cases]
+    allc = []
+    for c in cases:
+        allc += [c, rotated_state(c)]
+    pairs_all = c03.evaluate(run, allc, 'MC_C16', conventions=('canon',))
+    idx = {repr(c): o for c, o in pairs_all}
+    pairs = [(c, idx[repr(c)], idx.get(repr(rotated_state(c))), m) for c, m in zip(cases, meta) if repr(c) in idx]
     fam = {'prior': 0, 'relpose': 0, 'range': 0, 'mid': 0}
-    for c, obs_list in pairs:
+    states = []
+    for c, oa, ob, m in pairs:
+        states.append((c, oa, m, None))
+        if ob is not None:
+            states.append((rotated_state(c), ob, m, 'moved-in-place'))
+    g = None
+    for c, obs_list, m, hist in states:
         obs = obs_list[0]
         run.replayed += 1
-        g = GC.build_graph(c)
+        if hist == 'moved-in-place' and g is not None:
+            # History dimension: the SAME graph / edge objects are evaluated again after every vertex has been moved in place to a second state
+            for v, cv in zip(g._vertices, c['verts']):
+                v.pose[:B.DIM[cv['k']]] = [float(x) for x in cv['t']]
+            run.notes['second_state_evaluations'] = run.notes.get('second_state_evaluations', 0) + 1
+        else:
+            g = GC.build_graph(c)
+            if 'alias_prior' in m:
+                e = g._edges[m['alias_prior']]
+                e.estimate = e.vertices[0].pose                       # the measurement IS the vertex's pose object
+                a, b = m['alias_pair']
+                g._vertices[b].pose = g._vertices[a].pose             # two vertices share one pose object
+                run.notes['aliased_cases'] = run.notes.get('aliased_cases', 0) + 1
         S = max([abs(x) for v in c['verts'] for x in v['t']] + [1])
         for n, (e_case, e) in enumerate(zip(c['edges'], g._edges)):
             if e_case['cls'] not in fam:
